@@ -637,7 +637,7 @@ class QueryObjectDescriptor(CanBehaveLikeAVariable[T], ABC):
             unbound_variables.update(var._unique_variables_.difference(HashedIterable(values=sources)))
         unbound_variables_with_domain = HashedIterable()
         for var in unbound_variables:
-            if var.value._domain_ and len(var.value._domain_.values) > 20:
+            if isinstance(var.value, Variable) and var.value._domain_ and len(var.value._domain_.values) > 20:
                 if var not in self.warned_vars:
                     self.warned_vars.add(var)
                     unbound_variables_with_domain.add(var)
@@ -1238,6 +1238,12 @@ class Flatten(DomainMapping):
             inner_iter = inner
         for inner_v in inner_iter:
             yield HashedValue(inner_v)
+
+    @property
+    @lru_cache(maxsize=None)
+    def _all_variable_instances_(self) -> List[Variable]:
+        # A flattened element is a binding of its own: one value of the child maps to many of them.
+        return [self] + self._child_._all_variable_instances_
 
     @property
     def _name_(self):
